@@ -791,6 +791,23 @@ SCRIPTS: list[tuple[str, list[tuple]]] = [
         ("h1", "parse", 'python_version != "3.8.0"'), ("h2", "parse", 'python_full_version < "3.8.1"'), ("h", "or", "h1", "h2"),
         ("i1", "parse", 'python_version ~= "3.7.0"'), ("i2", "parse", 'python_full_version != "3.10.*"'), ("i", "or", "i1", "i2"), ("it", "reparse", "i"),
         ("j", "parse", '"3.8" <= python_version'), ("jt", "reparse", "j")]),
+    # shapes that three seeded changes needed and that only a neighbouring property's exhaustive replay contained
+    ("projection merges a one-segment python_version operand with python_full_version (seeded C12-r5-A)", [
+        ("m", "parse", 'python_version > "3" and os_name == "posix" or python_full_version >= "3.6.1" and os_name == "nt"'),
+        ("o", "only", "m", ["python_version", "python_full_version"]), ("x", "exclude", "m", ["os_name"]), ("ot", "reparse", "o"),
+        ("m2", "parse", 'python_version <= "3" and os_name == "posix" or python_full_version < "3.6.1" and os_name == "nt"'),
+        ("o2", "only", "m2", ["python_version", "python_full_version"]), ("x2", "exclude", "m2", ["os_name"])]),
+    ("a conjunctive union result whose text re-parses through group & in-atom (seeded C07-r4-A)", [
+        ("x", "parse", 'sys_platform != "win32" and sys_platform != "darwin" and os_name == "nt"'),
+        ("w", "parse", 'sys_platform != "win32" and sys_platform != "darwin" and platform_machine == "arm64"'),
+        ("y", "parse", 'sys_platform != "darwin" and sys_platform in "darwin linux"'),
+        ("xw", "or", "x", "w"), ("m", "or", "xw", "y"), ("mt", "reparse", "m"), ("wy", "or", "w", "y"), ("m2", "or", "x", "wy"), ("m2t", "reparse", "m2")]),
+    ("distributivity over a hole whose upper edge has a patch level (seeded C14-r4-B)", [
+        ("a", "parse", 'python_full_version < "3.7.0"'), ("b", "parse", 'python_full_version >= "3.8.5"'), ("c", "parse", 'python_full_version >= "3.8.1"'),
+        ("ab", "or", "a", "b"), ("l", "and", "c", "ab"), ("ca", "and", "c", "a"), ("cb", "and", "c", "b"), ("r", "or", "ca", "cb"),
+        ("law1", "law", "distrib1", "l", "r"),
+        ("a2", "parse", 'python_version < "3.7"'), ("b2", "parse", 'python_full_version >= "3.8.2"'), ("ab2", "or", "a2", "b2"),
+        ("l2", "and", "c", "ab2"), ("ca2", "and", "c", "a2"), ("cb2", "and", "c", "b2"), ("r2", "or", "ca2", "cb2"), ("law2", "law", "distrib1", "l2", "r2")]),
 ]
 
 
@@ -809,6 +826,9 @@ def scripted_sessions() -> list[dict]:
                 reg[name] = s.binop(op, reg.get(st[2]), reg.get(st[3]))
             elif op == "reparse":
                 reg[name] = s.reparse(reg.get(st[2]))
+            elif op == "law":
+                if reg.get(st[3]) is not None and reg.get(st[4]) is not None:
+                    s.law(st[2], reg[st[3]], reg[st[4]])
             else:
                 reg[name] = s.project(op, reg.get(st[2]), st[3]) if reg.get(st[2]) is not None else None
         out.append(s.finish(7000 + k))
